@@ -5,7 +5,13 @@ MC   : spec/ParseCursor.tla (cursor discipline: under the loop-top contract ever
        most N+1 tops and every parse ends -- invariant + liveness; negative config: a sub-parser that
        matches without consuming breaks the bound) and spec/SourceMapPos.tla (parse.Input.PositionAt is the
        position algebra Advance*; ranges ordered / in bounds; negative config: newline off by one).
-EXPLORE (harness/c06): the repository's .templ files and parser test inputs, every truncation of them
+       Both specs carry the end-of-input dimension (N / the text is the CALLER's input; an entry point that
+       parses a longer private copy is rejected: ParseCursor_negeof, SourceMapPos_negeof) and ParseCursor the
+       nesting dimension (work of a finished nested invocation is not redone: ReparseBound; ParseCursor_negnest).
+EXPLORE (harness/c06), every input through the exported parser.ParseString and judged against the caller's
+       string: inputs cut exactly at the end of every construct kind with no final newline / "\n" / "\r" / "\r\n",
+       one construct kind nested d levels deep (loop tops must not multiply per level),
+       the repository's .templ files and parser test inputs, every truncation of them
        (quick: all truncations of the smaller inputs + a seeded sample of the larger ones), seeded
        structure-aware mutations (token insert/delete/duplicate/replace/swap from a vocabulary,
        bracket/quote/tag imbalance, multi-byte text before expressions, CRLF), each parsed by the real
@@ -327,6 +333,8 @@ def main():
     ck.set("range_kinds_checked_by_harness", s["range_kinds"])
     ck.set("truncations", "every byte-wise truncation of every corpus input" if thorough else
            "every truncation of inputs <= 2000 bytes, 80 seeded truncation points of each larger input")
+    ck.assume("'promptly' is judged by deterministic work counts from the loop-top hook (entries of one loop at one input index "
+              "per parse <= 16; the corpus needs 4), not by wall time")
     ck.assume("NOT covered: coverage-guided random bytes (a fuzzing technique outside this family; the repository's Fuzz* targets do that)")
     ck.assume("absence of panics / hangs is observed on the explored inputs, not proved; loops inside github.com/a-h/parse combinators are not hooked")
     ck.assume("position faithfulness is demanded only for inputs that parse, generate and gofmt (as the property states); all such inputs are "
